@@ -29,6 +29,9 @@ def tag (c : Char) : T :=
   else if c = ':' then .colon
   else if '0' ≤ c ∧ c ≤ '9' then .dig (Fin.ofNat 10 (c.toNat - 48))
   else if c = ' ' ∨ c = '\t' ∨ c = '\n' ∨ c = '\r' ∨ c = '\x0b' ∨ c = '\x0c' then .ws
+  -- `#` (a comment) and `]` (the end of a bracketed call) end a pattern as white space does:
+  -- the look-ahead `(?=(\s|[#\]]|$))` treats the three alike, so they share the class
+  else if c = '#' ∨ c = ']' then .ws
   else .other
 
 def embed : PC → T
@@ -50,7 +53,7 @@ def minAlts (s : List T) : List (List PC × List T) :=
   (match s with | .star :: .dig d :: r => [([.star, .dig d], r)] | _ => []) ++
   (match s with | .star :: r => [([.star], r)] | _ => [])
 
-/-- `(?=(\s|$))` -/
+/-- `(?=(\s|[#\]]|$))`; `#` and `]` are in the class `ws` (see `tag`) -/
 def lookOk : List T → Bool
   | [] => true
   | .ws :: _ => true
